@@ -596,6 +596,25 @@ impl HashColumn {
 		Ok(table)
 	}
 
+	/// Re-detects the index and reference-count tables from the files on disk. Validating a
+	/// log record restarts index growth as a side effect; when the record is then rejected
+	/// nothing of it reached the disk and the in-memory table set must follow the disk again.
+	pub fn reload_index_tables(&self) -> Result<()> {
+		let (index, mut reindexing, _stats) = Self::open_index(&self.path, self.col)?;
+		let ref_count = if self.ref_count_cache.is_some() {
+			Some(Self::open_ref_count(&self.path, self.col, &mut reindexing)?)
+		} else {
+			None
+		};
+		let mut tables = self.tables.write();
+		let mut reindex = self.reindex.write();
+		tables.index = index;
+		tables.ref_count = ref_count;
+		reindex.queue = reindexing;
+		reindex.progress.store(0, Ordering::Relaxed);
+		Ok(())
+	}
+
 	fn trigger_reindex<'a, 'b>(
 		tables: RwLockUpgradableReadGuard<'a, Tables>,
 		reindex: RwLockUpgradableReadGuard<'b, Reindex>,
@@ -2160,6 +2179,13 @@ impl Column {
 		match self {
 			Column::Hash(column) => column.flush(),
 			Column::Tree(column) => column.flush(),
+		}
+	}
+
+	pub fn reload_after_rejected_log(&self) -> Result<()> {
+		match self {
+			Column::Hash(column) => column.reload_index_tables(),
+			Column::Tree(_) => Ok(()),
 		}
 	}
 
